@@ -490,7 +490,8 @@ package redis
 //@ func (*mgetRequest).Split
 //@   prop C03 C01 C11
 //@   requires r != nil && r.raw != nil && validbody(r.raw.body) && len(r.raw.body.Array) >= 2 && isnil(r.children) && r.childWait != nil
-//@   modifies r.children
+//@   modifies r.children, atomi32
+//@   ensures @the-count-starts-at-the-number-of-children atomi32[r.childWait] == int32(len(result)) && forall x loc :: x != r.childWait ==> atomi32[x] == old(atomi32[x])
 //@   ensures @one-child-per-key len(result) == len(r.raw.body.Array) - 1 && result == r.children
 //@   ensures @child-i-is-get-key-i forall k int :: 0 <= k && k < len(result) ==> mgetchild(result[k], r.raw.body.Array, k+1)
 //@   let v = r.raw.body.Array
@@ -500,7 +501,8 @@ package redis
 //@ func (*msetRequest).Split
 //@   prop C03 C01 C11
 //@   requires r != nil && r.raw != nil && validbody(r.raw.body) && len(r.raw.body.Array) >= 3 && len(r.raw.body.Array) % 2 == 1 && isnil(r.children) && r.childWait != nil
-//@   modifies r.children
+//@   modifies r.children, atomi32
+//@   ensures @the-count-starts-at-the-number-of-children atomi32[r.childWait] == int32(len(result)) && forall x loc :: x != r.childWait ==> atomi32[x] == old(atomi32[x])
 //@   ensures @one-child-per-pair len(result) == len(r.raw.body.Array) / 2 && result == r.children
 //@   ensures @child-i-is-set-pair-i forall k int :: 0 <= k && k < len(result) ==> msetchild(result[k], r.raw.body.Array, k)
 //@   let v = r.raw.body.Array
@@ -510,7 +512,8 @@ package redis
 //@ func (*sumResultRequest).Split
 //@   prop C03 C01 C11
 //@   requires r != nil && r.raw != nil && validbody(r.raw.body) && len(r.raw.body.Array) >= 2 && isnil(r.children) && r.childWait != nil
-//@   modifies r.children
+//@   modifies r.children, atomi32
+//@   ensures @the-count-starts-at-the-number-of-children atomi32[r.childWait] == int32(len(result)) && forall x loc :: x != r.childWait ==> atomi32[x] == old(atomi32[x])
 //@   ensures @one-child-per-key len(result) == len(r.raw.body.Array) - 1 && result == r.children
 //@   ensures @child-i-is-cmd-key-i forall k int :: 0 <= k && k < len(result) ==> sumchild(result[k], r.raw.body.Array, k+1)
 //@   let v = r.raw.body.Array
@@ -1042,3 +1045,28 @@ package redis
 //@   modifies all, trigcount
 //@   callpre resetAllClients @the-clients-of-the-old-host-set-are-dropped len(hosts) > 0
 //@   ensures @a-topology-change-triggers-a-slot-refresh len(hosts) > 0 ==> trigcount == old(trigcount) + 1
+
+// ---- C02: a split request is answered by the child that brings the count to zero, and by no other ----------
+
+//@ func (*msetRequest).onChildDone
+//@   prop C02 C03
+//@   requires r != nil && r.raw != nil && r.childWait != nil
+//@   modifies all, atomdecs
+//@   callpre SetResponse @answered-only-by-the-child-that-brings-the-count-to-zero arg0 == r.raw && atomi32[r.childWait] == 0 && arg1 != nil
+//@   ensures @every-finished-child-is-counted-exactly-once atomdecs[r.childWait] == old(atomdecs[r.childWait]) + 1
+
+//@ func (*mgetRequest).onChildDone
+//@   prop C02 C03
+//@   requires r != nil && r.raw != nil && r.childWait != nil
+//@   modifies all, atomdecs
+//@   callpre setResponse @answered-only-by-the-child-that-brings-the-count-to-zero atomi32[r.childWait] == 0
+//@   assume @before:setResponse forall k int :: 0 <= k && k < len(r.children) ==> r.children[k] != nil && r.children[k].resp != nil
+//@   ensures @every-finished-child-is-counted-exactly-once atomdecs[r.childWait] == old(atomdecs[r.childWait]) + 1
+
+//@ func (*sumResultRequest).onChildDone
+//@   prop C02 C03
+//@   requires r != nil && r.raw != nil && r.childWait != nil
+//@   modifies all, atomdecs
+//@   callpre setResponse @answered-only-by-the-child-that-brings-the-count-to-zero atomi32[r.childWait] == 0
+//@   assume @before:setResponse forall k int :: 0 <= k && k < len(r.children) ==> r.children[k] != nil && r.children[k].resp != nil
+//@   ensures @every-finished-child-is-counted-exactly-once atomdecs[r.childWait] == old(atomdecs[r.childWait]) + 1
